@@ -120,7 +120,9 @@ CLAIMS["C09"] = dict(
     text="Proof of the scheduler fragment: __process_file_fix never fails internally (no ValueError from min() of an empty level map - D3 "
          "fixed; only the exceptions of the passes can escape) and returns the disjunction of the passes; __process_file_fix_next_level "
          "continues only with a strictly higher fix level (loop invariant over the trigger set, order-independent) and otherwise stops, so the "
-         "number of passes is bounded by the number of levels.",
+         "number of passes is bounded by the number of levels; every rule that triggered in the token pass OR the line pass is taken into "
+         "account for the next level; in the line pass each rule receives the line as fixed by the rules before it (ghost-trace chaining clause "
+         "of PluginManager.next_line, all modes).",
     note=TB + "This is the engine half only. NOT covered: that one run reaches a fixed point (fix(fix(d)) == fix(d)), that rules of different "
               "levels do not undo each other, the per-rule 'fix is a projection' lemma planned in DESIGN.md 5/C09: these need the rules' token "
               "logic and the re-parse. The assertion that triggered ids belong to higher levels is allowed to fail (AssertionError/KeyError are "
